@@ -19,7 +19,11 @@ TCodec == /\ l <= Len(TraceLog) /\ Ev.ev = "codec" /\ l' = l + 1 /\ Ev.err = "" 
 \* {"ev":"compress","name":..,"ok":n,"bad":n}: every concurrent round trip returned the original bytes
 TCompress == /\ l <= Len(TraceLog) /\ Ev.ev = "compress" /\ l' = l + 1 /\ Ev.bad = 0 /\ Ev.ok > 0
 TReset == l <= Len(TraceLog) /\ Ev.ev = "reset" /\ l' = l + 1
-TNext == TFrame \/ TCodec \/ TCompress \/ TReset
+\* {"ev":"served","sent":n,"acked":n,"missing":n,"wrong":n,"extra":n,"alive":bool} : concurrent same-size requests decoded
+\* by a serving process built by the real wiring: what every handler saw is its own request
+TServed == /\ l <= Len(TraceLog) /\ Ev.ev = "served" /\ l' = l + 1
+           /\ Ev.alive /\ Ev.acked > 0 /\ Ev.missing = 0 /\ Ev.wrong = 0 /\ Ev.extra = 0
+TNext == TFrame \/ TCodec \/ TCompress \/ TServed \/ TReset
 TSpec == TInit /\ [][TNext]_l
 TraceAccepted ==
   LET d == TLCGet("stats").diameter IN
